@@ -109,7 +109,7 @@ class _TextCueParser:
       self.parent = span
       return
 
-    if tag.startswith("rt"):
+    if tag.startswith("rt") and self.ruby_rtc is not None:
       span = model.Rt(self.parent.get_doc())
       self.ruby_rtc.push_child(span)
       self.parent = span
